@@ -1,7 +1,9 @@
 //! `mc <ID> --tier quick|thorough` / `mc <ID> --replay <file>`
 mod c01;
 mod c02;
+mod c03;
 mod c04;
+mod c05;
 mod interp;
 mod pushref;
 mod util;
@@ -36,6 +38,10 @@ fn main() {
             }
         }
     }
+    if id == "C03-child" {
+        c03::child(&tier);
+        return;
+    }
     if id == "calibrate" {
         match mcx::rng::calibrate() {
             Ok(n) => println!("calibration ok: {n} runs"),
@@ -57,6 +63,8 @@ fn main() {
         });
         let ok = match id.as_str() {
             "C04" => c04::replay(&v["replay"]),
+            "C03" => c03::replay(&v["replay"]),
+            "C05" => c05::replay(&v["replay"]),
             "C01" => c01::replay(c01::Mode::C01, &v["replay"]),
             "C02" => c01::replay(c01::Mode::C02, &v["replay"]),
             _ => {
@@ -69,6 +77,8 @@ fn main() {
     let mut run = Run::new(&id, &tier);
     match id.as_str() {
         "C04" => c04::run(&mut run),
+        "C03" => c03::run(&mut run),
+        "C05" => c05::run(&mut run),
         "C01" => c01::run(c01::Mode::C01, &mut run),
         "C02" => c01::run(c01::Mode::C02, &mut run),
         _ => {
